@@ -450,7 +450,7 @@ pub fn main(args: &Args) -> Report {
         return rep;
     }
     let thorough = args.thorough();
-    let n_cases = if thorough { 2000 } else { 240 };
+    let n_cases = if thorough { 3000 } else { 480 };
     let deadline = Instant::now() + Duration::from_secs(args.budget_s(120, 1500));
     let seed = args.seed;
     let (out, done) = par_cases(n_cases, threads(), Some(deadline), |k| {
